@@ -24,6 +24,32 @@ var c03Nodes = []string{"root0", "n1", "n2", "n3"}
 // candidate edges (up index < down index keeps the graph acyclic)
 var c03Pairs = [][2]int{{0, 1}, {0, 2}, {1, 2}, {0, 3}, {1, 3}, {2, 3}}
 
+// named shapes (indexes into c03Pairs): nothing, one child, chain, siblings,
+// mirror (n2 under root0 and n1), diamond (n3 under n1 and n2), long chain
+var c03Shapes = [][]int{{}, {0}, {0, 2}, {0, 1}, {0, 1, 2}, {0, 1, 4, 5}, {0, 2, 5}}
+
+// c03Pick decides which candidate edges exist: either an arbitrary subset of
+// up to maxExtra candidates among the first `nodes` nodes, or (parameter
+// "shapes" = k > 0) one of the first k named shapes.
+func c03Pick(nodes, maxExtra int) []bool {
+	present := make([]bool, len(c03Pairs))
+	if k := vParam("shapes", 0); k > 0 {
+		for _, i := range c03Shapes[vChoose(k)] {
+			present[i] = true
+		}
+		return present
+	}
+	extra := 0
+	for i, pr := range c03Pairs {
+		if pr[1] > nodes || extra >= maxExtra || !vBool() {
+			continue
+		}
+		present[i] = true
+		extra++
+	}
+	return present
+}
+
 // c03RefHashes recomputes every edge hash from a dump of the tables.
 func c03RefHashes(sdb *DbSqlite) (edges []vEdgeRow, want []uint32) {
 	edges = vDumpEdges(sdb)
@@ -77,25 +103,25 @@ func c03Graph(sdb *DbSqlite, maxExtra, ptsPerNode int) (present []bool) {
 	}
 	vPutEdge(sdb, "e-root", "root", "root0", 0, "device")
 	vPutEdgePoint(sdb, "ep-root", "e-root", data.Point{Type: data.PointTypeTombstone, Key: "0", Time: vPointShape(0).Time})
-	present = make([]bool, len(c03Pairs))
-	extra := 0
+	present = c03Pick(vParam("nodes", 2), maxExtra)
 	row := 0
 	for i, pr := range c03Pairs {
-		if pr[1] > vParam("nodes", 2) || extra >= maxExtra || !vBool() {
+		if !present[i] {
 			continue
 		}
-		// an edge needs its upper node to be attached (except below root0)
-		present[i] = true
-		extra++
 		id := "e" + c03Nodes[pr[0]] + "-" + c03Nodes[pr[1]]
 		vPutEdge(sdb, id, c03Nodes[pr[0]], c03Nodes[pr[1]], 0, "x")
-		tomb := data.Point{Type: data.PointTypeTombstone, Key: "0", Time: vPointShape(0).Time, Value: float64(vChoose(2))}
+		tomb := data.Point{Type: data.PointTypeTombstone, Key: "0", Time: vPointShape(0).Time, Value: float64(vChoose(1 + vParam("tombmax", 1)))}
 		vPutEdgePoint(sdb, "ept"+id, id, tomb)
 	}
 	for ni, n := range c03Nodes[:1+vParam("nodes", 2)] {
-		for k, cnt := 0, vChoose(ptsPerNode+1); k < cnt; k++ {
+		cnt := ptsPerNode
+		if vParam("nptsfix", 0) == 0 {
+			cnt = vChoose(ptsPerNode + 1)
+		}
+		for k := 0; k < cnt; k++ {
 			p := vPointShape(0)
-			vAssume(math.Float64bits(p.Value) != 1<<63) // -0.0 cannot be in a REAL column
+			vAssume(math.Float64bits(p.Value) != 1<<63)                                // -0.0 cannot be in a REAL column
 			p.Type = p.Type + []string{"r", "x", "y", "z"}[ni] + []string{"0", "1"}[k] // distinct identities per node
 			vPutNodePoint(sdb, "np"+n+[]string{"0", "1"}[k], n, p)
 			row++
